@@ -15,9 +15,7 @@ func c17cfg(name string) (*vHistCfg, int, int) {
 		caches: []int{0}, fast: []bool{false, true}, thresh: []int{0}, refHash: true}
 	maxV, maxW := 2, 1
 	if vTier() == "thorough" {
-		maxV, maxW = 3, 2
-		cfg.nKeys = 3
-		cfg.caches = []int{0, 10000}
+		maxV, maxW = 2, 2
 	}
 	return cfg, maxV, maxW
 }
@@ -37,7 +35,7 @@ func C17_Fault_Reads() {
 	m := h.vers[v]
 	maxJ := 10
 	if vTier() == "thorough" {
-		maxJ = 24
+		maxJ = 20
 	}
 	j := vChoice("failAt", maxJ+1)
 	c0 := h.db.calls
